@@ -117,6 +117,13 @@ func (s *session) attempt(of *offer, transport string) {
 			case "direct", "direct-src":
 				out.sb, out.err = s.b.S.ReceiveBlob(ctxbg, of.Ref, readerOf(of, s.rng))
 				out.accepted, out.haveSB = out.err == nil, out.err == nil
+			case "nohash":
+				// the entry point that leaves the verification to the store (how perkeep feeds the caches of
+				// its cloud stores and the lower stores of encrypt): the store's own check is the only one,
+				// the hub of the destination is told on success
+				out.hub = true
+				out.sb, out.err = blobserver.ReceiveNoHash(ctxbg, s.dst, of.Ref, readerOf(of, s.rng))
+				out.accepted, out.haveSB = out.err == nil, out.err == nil
 			case "put":
 				out.hub = true
 				s.doPut(of, transport, &out)
